@@ -279,8 +279,13 @@ def r3(fx):
     try:
         if cls is None:
             raise KeyError
-        sai = genv_c['_StructuredAppendInfo'](5, 11, 0x5A)
-        reference_shape = len(tuple(sai)) == 4 and ev._hasattr(sai, 'mode')
+        from .models import make_sa_info
+        sai = make_sa_info(fx, genv_c['_StructuredAppendInfo'], 5, 11, 0x5A)
+        try:
+            positional = genv_c['_StructuredAppendInfo'](5, 11, 0x5A)
+        except (PyRaise, TypeError):
+            positional = None
+        reference_shape = positional is not None and len(tuple(sai)) == 4 and ev._hasattr(sai, 'mode') and tuple(positional) == tuple(sai)
         if reference_shape:
             fields = (tuple(sai), sai.mode, sai.number, sai.total, sai.parity)
             bykw = tuple(genv_c['_StructuredAppendInfo'](number=5, total=11, parity=0x5A))
